@@ -91,4 +91,22 @@ theorem smapGet_insertAll_sorted {α : Type} (es : List (String × α)) (m : Lis
       simp [this, smapGet_insert]
     · simp [hk, smapGet_insert]
 
+/-- the same with the inserted value computed from the entry (`versions.insert(key, decode(vv).0)`) -/
+theorem smapGet_insertAll_map_sorted {α β : Type} (g : α → β) (es : List (String × α)) (m : List (String × β)) (k : String)
+    (hs : SSorted es) :
+    smapGet (es.foldl (fun m e => smapInsert m e.1 (g e.2)) m) k
+      = (match smapGet es k with | some a => some (g a) | none => smapGet m k) := by
+  induction es generalizing m with
+  | nil => rfl
+  | cons e es ih =>
+    obtain ⟨k0, a0⟩ := e
+    obtain ⟨h1, h2⟩ := hs
+    rw [List.foldl_cons, ih _ h2]
+    simp only [smapGet]
+    by_cases hk : k0 = k
+    · subst hk
+      have : smapGet es k0 = none := smapGet_none_of_lt (fun e he => h1 e he)
+      simp [this, smapGet_insert]
+    · simp [hk, smapGet_insert]
+
 end VlsModel.Rs
